@@ -446,6 +446,26 @@ def run(pid, tier, seed, t0):
     return code
 
 
+def bytes_stage(pid, tier, seed, verdict):
+    """C18 names "the sniffing rewind buffer": what the protocol handler reads behind the sniffer (ReadVersion + Rewind)
+    must be exactly the client's bytes for every fragmentation.  Runs the replay domain of Sniff.tla on the real
+    auto-detecting connection and reports the falsified `bytes` clauses under the calling property (C18)."""
+    cuts, fams, rew = gen_domain(pid, "quick")
+    lines, nclasses = harness_lines(cuts, fams, rew, explicit_vectors())
+    obs_path = os.path.join(vlib.outdir(pid), "sniff-obs.ndjson")
+    run_bin(["--out", obs_path, "--threads", 6, "--sample", 2500 if tier == "quick" else 10000, "--seed", seed], "\n".join(lines) + "\n", 1200)
+    recs = [r for r in vlib.read_ndjson(obs_path) if r["k"] != "summary"]
+    res, fails, drift, mon_wall = monitor(pid, recs)
+    fails = {i: cl for i, cl in fails.items() if "bytes" in cl}
+    n = 0
+    for key, desc, rep in summarise(recs, fails):
+        rep = dict(rep, kind="sniff-vectors")
+        verdict.violation("sniff:" + key, desc, rep)
+        n += 1
+    return {"vectors": sum(r.get("n", 1) for r in recs), "records": len(recs), "stream_classes": nclasses,
+            "bytes_clause_false_on": len(fails), "violations": n}
+
+
 def replay(pid, path):
     obj = json.load(open(path))
     vecs = obj["replay"]["vectors"]
